@@ -7,7 +7,7 @@ caught = sys.argv[4] if len(sys.argv) > 4 else ""
 root = os.path.dirname(os.path.dirname(os.path.abspath(__file__)))
 dst = os.path.join(root, "seeded", sid)
 if os.path.exists(dst):
-    shutil.rmtree(dst)
+    sys.exit('refusing to overwrite ' + dst + ' - pick the next free id')
 shutil.copytree(os.path.join(wt, "seed_out"), dst, ignore=shutil.ignore_patterns("target", "*.bak"))
 mp = os.path.join(dst, "meta.json")
 meta = json.load(open(mp))
